@@ -179,6 +179,30 @@ def shape_keys(params):
     return keys
 
 
+# parameter names that joblib's own wrappers / helpers use (fixed finding F53: `f(self=1)` was rejected by every wrapper
+# method, `Memory.eval(g, func=3)` likewise)
+COLLIDING_NAMES = ["self", "func", "args", "kwargs", "cls", "ignore_lst", "call_id", "shelving"]
+
+
+def collide_params(rng, params):
+    """the same signature with one to all of its parameters renamed to names joblib uses itself"""
+    used = {p[0] for p in params}
+    free = [n for n in COLLIDING_NAMES if n not in used]
+    rng.shuffle(free)
+    out = []
+    first = True
+    for name, kind, default in params:
+        if kind == "vk" and rng.random() < 0.5:
+            name = "kwargs" if "kwargs" in free else name
+            if name == "kwargs":
+                free.remove("kwargs")
+        elif kind not in ("va", "vk") and free and (first or rng.random() < 0.5):
+            name = free.pop()
+            first = False
+        out.append([name, kind, default])
+    return out
+
+
 def gen_call(rng, params, base=None):
     """a valid call and its binding; with [base] (a binding) the same binding in another call form"""
     has_va = any(p[1] == "va" for p in params)
@@ -200,8 +224,11 @@ def gen_call(rng, params, base=None):
         extra_kw = [list(x) for x in base.get("**", [])]
     else:
         extra_pos = [gen_value(rng) for _ in range(rng.choice([0, 0, 1, 2]))] if has_va else []
-        extra_kw = [[n, gen_value(rng)] for n in rng.sample(["x", "y", "z"], rng.choice([0, 0, 1, 2]))] \
-            if has_vk else []
+        pool = ["x", "y", "z"]
+        if has_vk and any(p[0] in COLLIDING_NAMES[:2] + COLLIDING_NAMES[3:] for p in params):
+            # surplus keywords named like joblib's own parameters (they land in the ** dictionary)
+            pool = pool + [n for n in COLLIDING_NAMES if n not in {p[0] for p in params}]
+        extra_kw = [[n, gen_value(rng)] for n in rng.sample(pool, rng.choice([0, 0, 1, 2]))] if has_vk else []
     P = [p for p in params if p[1] in ("po", "pk")]
     if extra_pos:
         npos = len(P)
@@ -256,7 +283,10 @@ def equivalent_form(rng, params, binding, ignore):
 ODD_DEFAULTS = [{"o": "eqall"}, {"o": "eqnone"}, {"o": "raises"}, {"o": "elementwise"}]
 
 
-def gen_sig_scenario(rng, params, sid, quick=True):
+def gen_sig_scenario(rng, params, sid, quick=True, collide=None):
+    collide = rng.random() < 0.2 if collide is None else collide
+    if collide:
+        params = collide_params(rng, params)
     if rng.random() < 0.2 and any(p[2] is not None for p in params):
         # defaults whose ==/!= is non-standard (always equal like unittest.mock.ANY, never equal, raising, without a
         # truth value): joblib must only ever test them by identity
@@ -268,6 +298,8 @@ def gen_sig_scenario(rng, params, sid, quick=True):
         ignore = rng.sample(named, rng.randint(1, min(2, len(named))))
     compress = rng.choice([False, False, 3, ["gzip", 1]])
     kind = rng.choice(["def", "def", "method", "method", "nested", "lambda", "async", "async"])
+    if kind == "method" and any(p[0] == "self" for p in params):
+        kind = "def"       # (a method has its own self)
     sc = {"id": sid, "type": "sig", "params": params, "ignore": ignore, "compress": compress,
           "verbose": rng.choice([0, 0, 1, 2, 11, 60]), "mmap_mode": rng.choice([None, None, None, None, "r", "c"]),
           "picklable": kind in ("def", "method") and rng.random() < 0.6,
@@ -329,6 +361,14 @@ def gen_sig_scenario(rng, params, sid, quick=True):
             n_refs += 1
             if rng.random() < 0.8:
                 events.append(["get", n_refs - 1])
+        elif collide and vld and rng.random() < 0.3:
+            # the other call routes: MemorizedFunc.call (forced execution), Memory.eval (a decoration without options,
+            # hence only where nothing is ignored), a wrapper of Memory(None)
+            route = rng.choice(["call", "eval", "nullmem"] if not ignore else ["call", "nullmem"])
+            if route == "nullmem":
+                events += [["nullmem", 0, cs], ["call", 0, cs, vld]]
+            else:
+                events.append(["call", 0, dict(cs, via=route), vld])
         else:
             events.append(["call", 0, cs, vld])
         r = rng.random()
@@ -599,6 +639,47 @@ def fixed_scenarios(prop):
             ev += [["check", 0, {"pos": [v], "kw": []}, True], ["call", 0, {"pos": [], "kw": [["a", v]]}, True]]
         out.append({"id": "fixed-joblib-objects-as-arguments", "type": "sig", "callback": False,
                     "params": [["a", "pk", None], ["b", "pk", I(0)]], "ignore": [], "compress": False,
+                    "versions": {"0": {"tag": "v0", "path": "verifmod.py", "pad": 0, "kind": "def"}}, "events": ev})
+        # fixed finding F53: parameters named like joblib's own (self, func, args, kwargs, cls, ignore_lst, call_id,
+        # shelving), passed by keyword and positionally through every route (__call__, check_call_in_cache,
+        # call_and_shelve, call, Memory.eval, the wrapper of Memory(None))
+        def kc(kind_, pos, kw, via=None):
+            cs = {"pos": [I(v) for v in pos], "kw": [[n_, I(v)] for n_, v in kw]}
+            if via:
+                cs["via"] = via
+            return [kind_, 0, cs, True]
+        for n_, name in enumerate(COLLIDING_NAMES):
+            other = COLLIDING_NAMES[(n_ + 1) % len(COLLIDING_NAMES)]
+            for fk in (("def", "async") if name in ("self", "func") else ("def",)):
+                ev = [["define", 0], ["wrap", 0], kc("check", [], [(name, 1), (other, 2)]),
+                      kc("call", [], [(name, 1), (other, 2)]), kc("check", [1, 2], []), kc("call", [1, 2], []),
+                      kc("shelve", [1], [(other, 2)]), ["get", 0], kc("call", [], [(other, 3), (name, 1)], via="call"),
+                      kc("call", [], [(name, 1), (other, 3)]), kc("call", [], [(name, 4)], via="eval"),
+                      kc("call", [4], []), ["nullmem", 0, kc("call", [], [(name, 1), (other, 2)])[2]],
+                      kc("shelve", [], [(name, 5)]), ["get", 1], kc("check", [], [(name, 5)])]
+                out.append({"id": "fixed-parameter-named-%s-%s" % (name, fk), "type": "sig", "callback": False,
+                            "params": [[name, "pk", None], [other, "pk", I(0)]], "ignore": [], "compress": False,
+                            "versions": {"0": {"tag": "v0", "path": "verifmod.py", "pad": 0, "kind": fk}},
+                            "events": ev})
+        # ... as keyword-only parameters, and as surplus keywords of a ** parameter
+        ev = [["define", 0], ["wrap", 0]]
+        for kw_ in ([("self", 1), ("func", 2)], [("func", 2), ("self", 1)], [("self", 1)], [("self", 3), ("func", 2)]):
+            ev += [kc("check", [0], kw_), kc("call", [0], kw_)]
+        ev += [kc("call", [0], [("self", 1)], via="call"), kc("call", [0], [("func", 9), ("self", 1)], via="eval"),
+               ["nullmem", 0, kc("call", [0], [("self", 1), ("func", 2)])[2]], kc("shelve", [0], [("self", 1)]), ["get", 0]]
+        out.append({"id": "fixed-keyword-only-self-func", "type": "sig", "callback": False,
+                    "params": [["a", "pk", None], ["self", "ko", None], ["func", "ko", I(7)]], "ignore": [],
+                    "compress": False,
+                    "versions": {"0": {"tag": "v0", "path": "verifmod.py", "pad": 0, "kind": "def"}}, "events": ev})
+        ev = [["define", 0], ["wrap", 0]]
+        for kw_ in ([("self", 1)], [("self", 1), ("func", 2), ("args", 3)], [("args", 3), ("self", 1), ("func", 2)],
+                    [("cls", 1), ("call_id", 2), ("shelving", 3), ("ignore_lst", 4), ("kwargs", 5)], [("self", 1)]):
+            ev += [kc("check", [0], kw_), kc("call", [0], kw_)]
+        ev += [kc("call", [0], [("self", 1)], via="call"), kc("call", [0], [("func", 2), ("self", 1)], via="eval"),
+               ["nullmem", 0, kc("call", [0], [("self", 1), ("func", 2), ("cls", 3)])[2]],
+               kc("shelve", [0], [("shelving", 1)]), ["get", 0]]
+        out.append({"id": "fixed-surplus-keywords-named-like-joblib", "type": "sig", "callback": False,
+                    "params": [["a", "pk", None], ["kw", "vk", None]], "ignore": [], "compress": False,
                     "versions": {"0": {"tag": "v0", "path": "verifmod.py", "pad": 0, "kind": "def"}}, "events": ev})
         # C06-16: expires_after with an expiry of a day or more
         for n_, spec in enumerate(({"days": 1}, {"weeks": 2}, {"hours": 36}, {"days": 7, "seconds": 1})):
@@ -1626,7 +1707,8 @@ def judge(sc, res):
             # recomputation of an equivalent completed call
             if forced:
                 if not executed:
-                    devs.append({"prop": "C12", "kind": "forced-call-not-executed", "event": i, "key": None,
+                    devs.append({"prop": "C12" if sc["type"] == "c12" else "C06", "kind": "forced-call-not-executed",
+                                 "event": i, "key": None,
                                  "what": "MemorizedFunc.call did not execute the function"})
             elif vld and ck in completed and executed:
                 j = completed[ck]
@@ -1643,6 +1725,12 @@ def judge(sc, res):
             #  fixed finding F51: before the fix it stored without comparing or recording the source)
             completed[ck] = i
             by_args_id.setdefault(r.get("args_id"), set()).add(ck)
+        elif t == "nullmem":
+            # Memory(None): every route accepts what the plain function accepts and returns its value
+            for route, o in sorted(r.get("routes", {}).items()):
+                if r.get("bind") is not None and o != "ok":
+                    devs.append({"prop": "C06", "kind": "rejected", "event": i, "key": None,
+                                 "what": "Memory(None): %s of a valid call gives %s" % (route, o)})
         elif t == "get":
             if multi and r["o"] == "val" and ev[1] in ref_info and ref_info[ev[1]][0] == i - 1 \
                     and r["v"] != ref_info[ev[1]][3]:
@@ -1793,7 +1881,7 @@ def model_terms(sc, res):
             return None
         if t == "hotreload":
             hist.append("Define %d; Wrap %d" % (ev[2], ev[2]))
-        elif t in ("rewrap", "pickled", "recache", "proc", "jlog"):
+        elif t in ("rewrap", "pickled", "recache", "proc", "jlog", "nullmem"):
             hist.append("Get 999999")     # the copy has the state of the original: no model event (OSkip)
         elif t == "recode":
             hist.append("Wrap %d" % ev[1])    # an equal code object: the wrapper drops its cached source text
